@@ -36,10 +36,10 @@ theorem representable_comp2x2_iff (v : Rat) :
       omega
 
 /-- between the largest 2.14 value's rounding limit and 2.0 the entry saturates to 0x7fff (fonttools does the same) -/
-theorem comp2x2_saturates (v : Rat) (p : Profile) (h1 : 2 - 1/32768 ≤ v) (h2 : v ≤ 2) :
-    fieldPipeline .comp2x2 v p = .ok (32767 / 16384) := by
+theorem comp2x2_saturates_old (v : Rat) (p : Profile) (h1 : 2 - 1/32768 ≤ v) (h2 : v ≤ 2) :
+    fieldPipelineOld .comp2x2 v p = .ok (32767 / 16384) := by
   have hc : -2 ≤ v ∧ v ≤ 2 := ⟨by grind, h2⟩
-  simp only [fieldPipeline, if_pos hc, f2dot14FromF64_eq, f2dot14ToRat]
+  simp only [fieldPipelineOld, if_pos hc, f2dot14FromF64_eq, f2dot14ToRat]
   have hx : 0 ≤ v * 16384 := by grind
   have : 32767 < roundHalfAway (v * 16384) := by
     rw [roundHalfAway_nonneg' hx]
@@ -47,10 +47,10 @@ theorem comp2x2_saturates (v : Rat) (p : Profile) (h1 : 2 - 1/32768 ≤ v) (h2 :
     omega
   rw [satI16_above this]; simp
 
-theorem comp2x2_fallback (v : Rat) (p : Profile) (h : v < -2 ∨ 2 < v) :
-    fieldPipeline .comp2x2 v p = .fallback := by
+theorem comp2x2_fallback_old (v : Rat) (p : Profile) (h : v < -2 ∨ 2 < v) :
+    fieldPipelineOld .comp2x2 v p = .fallback := by
   have hc : ¬ (-2 ≤ v ∧ v ≤ 2) := by grind
-  simp only [fieldPipeline, if_neg hc]
+  simp only [fieldPipelineOld, if_neg hc]
 
 theorem roundHalfAway_neg_le' {x : Rat} (h : x < 0) : roundHalfAway x ≤ 0 := by
   unfold roundHalfAway
@@ -60,9 +60,9 @@ theorem roundHalfAway_neg_le' {x : Rat} (h : x < 0) : roundHalfAway x ≤ 0 := b
   omega
 
 /-- whatever is stored in a 2×2 entry is within one 2.14 step (2⁻¹⁴) of the source value -/
-theorem comp2x2_within_ulp (v : Rat) (p : Profile) (w : Rat) (hw : fieldPipeline .comp2x2 v p = .ok w) :
+theorem comp2x2_within_ulp_old (v : Rat) (p : Profile) (w : Rat) (hw : fieldPipelineOld .comp2x2 v p = .ok w) :
     ratAbs (w - v) ≤ 1 / 16384 := by
-  simp only [fieldPipeline] at hw
+  simp only [fieldPipelineOld] at hw
   by_cases hc : -2 ≤ v ∧ v ≤ 2
   · rw [if_pos hc] at hw
     injection hw with hw
